@@ -176,6 +176,23 @@ pub fn run(ctx: &mut Ctx) {
             }
         }
     }
+    ctx.stratum("A-range-any-and-its-results", true);
+    if ctx.take() {
+        if let Some(any) = any_operand() {
+            judge(ctx, &any);
+            for t in ["*", ">=1.2.3-a <2", "<1.0.0-a || >2", "1.2.3", "<=1", ">0.0.0-0"] {
+                if let Some(o) = operand_from_text(t) {
+                    for res in [guarded(|| any.range.intersect(&o.range)), guarded(|| any.range.difference(&o.range)), guarded(|| any.range.intersect(&any.range)), guarded(|| o.range.intersect(&any.range))] {
+                        if let Ok(Some(x)) = res {
+                            if let Ok(op) = operand_from_range(x, &format!("op(Range::any(), {})", t)) {
+                                judge(ctx, &op);
+                            }
+                        }
+                    }
+                }
+            }
+        }
+    }
     ctx.stratum("T-bound-kind-table", true);
     for iv in &tiv {
         if ctx.take() {
